@@ -1,6 +1,8 @@
 package rules
 
 import (
+	"golang.org/x/tools/go/ssa"
+	"go/token"
 	"fmt"
 	"go/ast"
 	"go/constant"
@@ -15,7 +17,7 @@ import (
 func init() { Registry["C14"] = checkC14 }
 
 func checkC14(c *core.Ctx, l *core.Ledger) {
-	l.Explanation = "THIN claim. Static clauses of C14 only: (EQ-NIL) generated struct Equals returns on a nil receiver or argument before touching any field, and the generated pointer comparison handles the four nil combinations; (EQ-FIELDS) on every shape class every field contributes exactly one comparison whose failure returns false (by value iff required, through the nil-aware pointer form otherwise) and nothing else decides the result; (EQ-KIND) lists are compared positionally after a length test, sets and maps by membership after a length test — in the generated helpers and in wire.{Lists,Sets,Maps}AreEqual alike (the kind of comparison, not its text); (EQ-EXH) wire.ValuesAreEqual handles all 11 wire types and rejects differing types first; the hashable fast paths cover exactly the types toHashable can convert (so it cannot panic). NOT decided — and this is the bulk of the property: reflexivity/symmetry/transitivity as such, agreement of generated Equals with wire equality and with an independent structural comparison on concrete values (value-level statements no shape argument settles)."
+	l.Explanation = "THIN claim. Static clauses of C14 only: (EQ-NIL) generated struct Equals returns on a nil receiver or argument before touching any field, and the generated pointer comparison handles the four nil combinations; (EQ-FIELDS) on every shape class every field contributes exactly one comparison whose failure returns false (by value iff required, through the nil-aware pointer form otherwise) and nothing else decides the result; (EQ-KIND) lists are compared positionally after a length test, sets and maps by membership after a length test — in the generated helpers and in wire.{Lists,Sets,Maps}AreEqual alike (the kind of comparison, not its text); (EQ-PRIM) in wire.ValuesAreEqual the case of every primitive wire type compares the two operands as values of that type's Go type (bool, int8, float64, int16, int32, int64 — the type of the matching constructor/getter), one derived from each argument: comparing another representation (raw bits) changes equality of doubles; (EQ-EXH) wire.ValuesAreEqual handles all 11 wire types and rejects differing types first; the hashable fast paths cover exactly the types toHashable can convert (so it cannot panic). NOT decided — and this is the bulk of the property: reflexivity/symmetry/transitivity as such, agreement of generated Equals with wire equality and with an independent structural comparison on concrete values (value-level statements no shape argument settles)."
 	l.RuleText = "one obligation per (template, shape class) / function"
 	l.Exhaustive = true
 	mod := tmpl.Extract(c)
@@ -175,6 +177,7 @@ func checkC14(c *core.Ctx, l *core.Ledger) {
 		l.Check(len(why) == 0, "EQ-KIND", "wire."+wc.fn, c.Rel(fd.Pos()), wc.kind+" comparison after a size test", strings.Join(why, "; "))
 	}
 	l.Floor("EQ-KIND", 8)
+	checkEqPrim(c, l)
 
 	// EQ-EXH
 	wireSwitchExhaustive(c, l, "EQ-EXH", "wire", "ValuesAreEqual", nil, false)
@@ -297,3 +300,73 @@ func switchNonPanicSet(c *core.Ctx, rel, fn string) string {
 }
 
 var _ = core.ModPath
+
+// checkEqPrim: per primitive wire type K, the comparison reached on the
+// `typ == K` edge of wire.ValuesAreEqual is an == of two operands whose Go type
+// is the value type of K (taken from the constructor/getter table), one derived
+// from each argument.
+func checkEqPrim(c *core.Ctx, l *core.Ledger) {
+	f := c.SSAFunc(c.LookupFunc("wire", "ValuesAreEqual"))
+	if f == nil {
+		l.Unk("EQ-PRIM", "wire.ValuesAreEqual", "", "not found")
+		return
+	}
+	sub := core.NewLedger("C14", "quick")
+	rows := valueTable(c, sub)
+	prim := map[int64]string{}
+	for code, name := range map[int64]string{2: "TBool", 3: "TI8", 4: "TDouble", 6: "TI16", 8: "TI32", 10: "TI64"} {
+		prim[code] = name
+	}
+	for code, name := range prim {
+		row := rows[code]
+		key := "ValuesAreEqual:" + name
+		if row == nil {
+			l.Unk("EQ-PRIM", key, c.Rel(f.Pos()), "no constructor/getter row for this type code")
+			continue
+		}
+		// the true edge of typ == code
+		edges := core.GuardEdges(f, func(cm core.Cmp) bool {
+			k, ok := core.ConstInt(cm.Y)
+			return cm.Op == token.EQL && ok && k == code && strings.HasSuffix(core.Sym(cm.X), ".typ")
+		})
+		if len(edges) == 0 {
+			l.Unk("EQ-PRIM", key, c.Rel(f.Pos()), "no case for this type code")
+			continue
+		}
+		// the return reached from that edge without further branching
+		var ret *ssa.Return
+		b := edges[0].To
+		for i := 0; i < 10 && ret == nil; i++ {
+			for _, in := range b.Instrs {
+				if r, ok := in.(*ssa.Return); ok {
+					ret = r
+				}
+			}
+			if ret == nil {
+				if len(b.Succs) != 1 {
+					break
+				}
+				b = b.Succs[0]
+			}
+		}
+		if ret == nil || len(ret.Results) != 1 {
+			l.Unk("EQ-PRIM", key, c.Rel(f.Pos()), "the case does not end in a single return")
+			continue
+		}
+		bo, ok := ret.Results[0].(*ssa.BinOp)
+		if !ok || bo.Op != token.EQL {
+			l.Bad("EQ-PRIM", key, c.Rel(ret.Pos()), "primitive values are not compared with ==: "+core.Sym(ret.Results[0]))
+			continue
+		}
+		tx, ty := core.TypeLabel(bo.X.Type()), core.TypeLabel(bo.Y.Type())
+		sx, sy := core.Sym(bo.X), core.Sym(bo.Y)
+		okT := tx == row.goType && ty == row.goType
+		if !okT && row.goType != "float64" && sx == "$0."+row.field && sy == "$1."+row.field {
+			// integers and booleans are stored by an injective conversion into the payload field: equal payloads iff equal values
+			okT = true
+		}
+		okArgs := strings.Contains(sx, "$0") && strings.Contains(sy, "$1") && !strings.Contains(sx, "$1") && !strings.Contains(sy, "$0") || strings.Contains(sx, "$1") && strings.Contains(sy, "$0") && !strings.Contains(sx, "$0") && !strings.Contains(sy, "$1")
+		l.Check(okT && okArgs, "EQ-PRIM", key, c.Rel(ret.Pos()), "compared as "+row.goType+" values, one from each argument", fmt.Sprintf("values of wire type %s are compared as %s/%s (%s == %s) instead of as %s from each argument: equality differs from the value type's (e.g. +0.0 and -0.0, which are equal doubles, have different bits)", name, tx, ty, sx, sy, row.goType))
+	}
+	l.Floor("EQ-PRIM", 6)
+}
